@@ -27,7 +27,7 @@ class Case:
 def run_differential(res: Result, prop: str, rng: random.Random, nprograms: int, profile: dict,
                      transforms, ninputs: int = 8, ctx_choices=(None,), min_changed: float = 0.3,
                      input_hook=None, accept_exc=(), tag: str = 'd', watchdog: float = 5.0,
-                     transformed_precondition=None, strict_ok: bool = False):
+                     transformed_precondition=None, strict_ok: bool = False, directed=()):
     """
     transforms(case, rng) -> list of (label, thunk) where thunk() returns the
     transformed Function (or raises a refusal).
@@ -50,7 +50,12 @@ def run_differential(res: Result, prop: str, rng: random.Random, nprograms: int,
                 break
             g = genprog.Gen(rng, profile)
             try:
-                p = g.program()
+                # `directed`: fixed (source, argument types) programs run ahead of the generated ones
+                if pi < len(directed):
+                    p = genprog.Program(directed[pi][0], tuple(directed[pi][1]), {}, 'R', [], {'directed'})
+                    res.count('directed_programs')
+                else:
+                    p = g.program()
             except Exception:
                 res.count('generator_error')
                 continue
